@@ -7,6 +7,8 @@ that escapes from a check is a bug of the harness and ends the run with exit sta
 """
 import hashlib
 import json
+import math
+import os
 import collections
 from fractions import Fraction
 
@@ -39,9 +41,122 @@ class Outcome:
         return "Outcome(ok=%r, %s)" % (self.ok, repr(self.value)[:200] if self.ok else repr(self.exc)[:300])
 
 
+# Documented signatures (README / docstrings at the pinned commit): (name, default) in positional order.  A call written by a
+# check is re-written, for a deterministic share of the calls, into the other ways a caller may legitimately write it - every
+# argument by keyword, or every argument by position (gaps filled with the documented defaults).  The names and the order are
+# the *documented* ones on purpose: a change that inserts a parameter in the middle or swaps two of them breaks callers.
+_REQ = object()
+DOC_SIGNATURES = {
+    "LGANM": (("W", _REQ), ("means", _REQ), ("variances", _REQ), ("random_state", None)),
+    "LGANM.sample": (("n", 100), ("population", False), ("do_interventions", dict), ("shift_interventions", dict),
+                     ("noise_interventions", dict), ("random_state", None)),
+    "ANM": (("A", _REQ), ("assignments", _REQ), ("noise_distributions", _REQ)),
+    "ANM.sample": (("n", _REQ), ("do_interventions", dict), ("shift_interventions", dict), ("noise_interventions", dict),
+                   ("random_state", None)),
+    "NormalDistribution": (("mean", _REQ), ("covariance", _REQ), ("check_valid", "ignore")),
+    "NormalDistribution.sample": (("n", _REQ), ("random_state", None)),
+    "NormalDistribution.marginal": (("X", _REQ),),
+    "NormalDistribution.conditional": (("Y", _REQ), ("X", _REQ), ("x", _REQ)),
+    "NormalDistribution.regress": (("y", _REQ), ("Xs", _REQ)),
+    "NormalDistribution.mse": (("y", _REQ), ("Xs", _REQ)),
+    "DRFNet": (("graph", _REQ), ("data", _REQ), ("verbose", False)),
+    "DRFNet.sample": (("n", None), ("random_state", None)),
+    "normal": (("mean", 0), ("var", 1)), "uniform": (("lo", 0), ("hi", 1)), "laplace": (("mean", 0), ("scale", 1)),
+    "dag_avg_deg": (("p", _REQ), ("k", _REQ), ("w_min", 1), ("w_max", 1), ("return_ordering", False), ("random_state", None),
+                    ("debug", False)),
+    "dag_full": (("p", _REQ), ("w_min", 1), ("w_max", 1), ("return_ordering", False), ("random_state", None)),
+    "intervention_targets": (("p", _REQ), ("K", _REQ), ("size", _REQ), ("replace", True), ("random_state", None)),
+    "split_data": (("data", _REQ), ("ratios", _REQ), ("random_state", 42)),
+    "add_edges": (("A", _REQ), ("no_edges", _REQ), ("random_state", 42)),
+    "remove_edges": (("A", _REQ), ("no_edges", _REQ), ("random_state", 42)),
+    "mec": (("A", _REQ), ("check_chain", True)), "imec": (("A", _REQ), ("I", _REQ), ("check_chain", True)),
+    "all_dags": (("pdag", _REQ), ("max_combinations", None)),
+    "is_consistent_extension": (("G", _REQ), ("P", _REQ), ("debug", False)),
+    "has_consistent_extension": (("pdag", _REQ),),
+    "pdag_to_cpdag": (("pdag", _REQ),), "dag_to_cpdag": (("G", _REQ),),
+    "pdag_to_dag": (("P", _REQ), ("debug", False)), "maximally_orient": (("P", _REQ), ("debug", False)),
+    "pdag_to_icpdag": (("P", _REQ), ("I", _REQ)), "dag_to_icpdag": (("G", _REQ), ("I", _REQ), ("debug", False)),
+    "is_dag": (("A", _REQ),), "topological_ordering": (("A", _REQ),), "transitive_closure": (("A", _REQ),),
+    "ancestors": (("i", _REQ), ("A", _REQ)), "descendants": (("i", _REQ), ("A", _REQ)),
+    "an": (("i", _REQ), ("A", _REQ)), "desc": (("i", _REQ), ("A", _REQ)),
+    "pa": (("i", _REQ), ("A", _REQ)), "ch": (("i", _REQ), ("A", _REQ)),
+    "neighbors": (("i", _REQ), ("A", _REQ)), "adj": (("i", _REQ), ("A", _REQ)),
+    "na": (("y", _REQ), ("x", _REQ), ("A", _REQ)),
+    "semi_directed_paths": (("fro", _REQ), ("to", _REQ), ("A", _REQ)),
+    "separates": (("S", _REQ), ("A", _REQ), ("B", _REQ), ("G", _REQ)),
+    "chain_component": (("i", _REQ), ("G", _REQ)),
+    "induced_subgraph": (("S", _REQ), ("G", _REQ)), "is_clique": (("S", _REQ), ("A", _REQ)),
+    "vstructures": (("A", _REQ),), "moral_graph": (("A", _REQ),), "degrees": (("A", _REQ),), "skeleton": (("A", _REQ),),
+    "only_directed": (("P", _REQ),), "only_undirected": (("P", _REQ),), "undirected_edges": (("P", _REQ),),
+    "directed_edges": (("A", _REQ),), "edge_weights": (("W", _REQ),), "is_complete": (("P", _REQ),),
+}
+STYLES = os.environ.get("VERIF_STYLES", "1") != "0"
+STYLE_COUNTS = collections.Counter()
+
+
+def _fp(x, depth=0):
+    """Cheap deterministic fingerprint of an argument (decides how the call is written; never part of a verdict)."""
+    import numpy as np
+    if isinstance(x, (bool, np.bool_)):
+        return int(x) + 1
+    if isinstance(x, (int, np.integer)):
+        return int(x) & 0xFFFF
+    if isinstance(x, (float, np.floating)):
+        return (int(abs(float(x)) * 7) & 0xFF) if math.isfinite(float(x)) else 3
+    if isinstance(x, np.ndarray):
+        return (x.size * 31 + int(np.count_nonzero(x)) * 7 + sum(x.shape)) & 0xFFFF
+    if isinstance(x, dict):
+        return 13 * len(x) + sum(_fp(k, 2) for k in x)
+    if isinstance(x, (set, frozenset, list, tuple)):
+        return 17 * len(x) + (sum(_fp(v, depth + 1) for v in list(x)[:8]) if depth < 2 else 0)
+    return 5
+
+
+def _restyle(fn, args, kwargs):
+    """-> (args, kwargs, fallback) for this call, or None to leave the call as the check wrote it."""
+    if not STYLES or not getattr(fn, "__module__", "").startswith("sempler"):
+        return None
+    sig = DOC_SIGNATURES.get(getattr(fn, "__qualname__", ""))
+    if sig is None or len(args) > len(sig) or any(k not in dict(sig) for k in kwargs):
+        return None
+    key = (sum((n + 1) * _fp(a) for n, a in enumerate(args)) + sum(_fp(v) + len(k) for k, v in kwargs.items())) % 4
+    if key == 2:                                          # everything by keyword
+        kw = {name: a for (name, _), a in zip(sig, args)}
+        kw.update(kwargs)
+        STYLE_COUNTS["keyword"] += 1
+        return (), kw
+    if key == 3 and kwargs:                               # everything by position, documented defaults in the gaps
+        out = list(args)
+        last = max(n for n, (name, _) in enumerate(sig) if name in kwargs)
+        for n in range(len(args), last + 1):
+            name, default = sig[n]
+            if name in kwargs:
+                out.append(kwargs[name])
+            elif default is _REQ:
+                return None
+            else:
+                out.append(default() if default is dict else default)
+        STYLE_COUNTS["positional"] += 1
+        return tuple(out), {}
+    return None
+
+
 def lib(fn, *args, **kwargs):
     """Call library code; *any* exception is captured (it is an observable behaviour of
     the library, to be judged by the oracle), never confused with a harness bug."""
+    alt = _restyle(fn, args, kwargs)
+    if alt is not None:
+        try:
+            return Outcome(True, fn(*alt[0], **alt[1]))
+        except TypeError as e:
+            # a signature this tree does not have (renamed / keyword-only parameter): binding fails before anything runs;
+            # the call is then made exactly as the check wrote it.  Any other TypeError is the library's behaviour.
+            if not ("unexpected keyword argument" in str(e) or "positional argument" in str(e)):
+                return Outcome(False, exc=e)
+        except RecursionError as e:
+            return Outcome(False, exc=e)
+        except Exception as e:           # noqa: BLE001
+            return Outcome(False, exc=e)
     try:
         return Outcome(True, fn(*args, **kwargs))
     except RecursionError as e:      # still a library behaviour
